@@ -94,7 +94,13 @@ def channels(f: Func) -> Tuple[List[Aff], Dict[str, str]]:
     if len(rets) != 1:
         raise AnalysisError(f'{f.name}: expected one return')
     arr = None
-    for n in ast.walk(rets[0].value):
+    # expand array-valued locals (but not the scalar maxima, which the leaves resolve)
+    scalars = {n_ for n_, ds in w.defs.items()
+               if len(ds) == 1 and ds[0][0] == 'value' and not (
+                   isinstance(ds[0][1], ast.Call) and src(ds[0][1].func) in
+                   ('np.array', 'numpy.array', 'Space.make_categorical_space',
+                    'Space.make_discrete_space', 'Space.make_continuous_space'))}
+    for n in ast.walk(w.expand(rets[0].value, stop=scalars)):
         if isinstance(n, ast.Call) and src(n.func) in ('np.array', 'numpy.array') and n.args \
                 and isinstance(n.args[0], (ast.List, ast.Tuple)):
             arr = n.args[0]
@@ -265,14 +271,10 @@ def shapes_dtypes(index: RepoIndex, rep, rule_shape: str, rule_dtype: str) -> No
         rets = [src(w.expand(e.value)) for e in w.events if e.kind == 'return' and e.value is not None]
         gor = 'self.grid_object_representation.space'
         hw = f'({sp_attr}.grid_shape.height, {sp_attr}.grid_shape.width, 1)'
-        # lower_bound / upper_bound are rebound (two defs): check the tiles textually
-        txt = src(sp.node)
-        ok = 'np.tile(lower_bound, (height, width, 1))' in txt and \
-            'np.tile(upper_bound, (height, width, 1))' in txt and \
-            f'height = {sp_attr}.grid_shape.height' in txt and \
-            f'width = {sp_attr}.grid_shape.width' in txt and \
-            'lower_bound = self.grid_object_representation.space.lower_bound' in txt and \
-            'upper_bound = self.grid_object_representation.space.upper_bound' in txt
+        # Func.node is in single-assignment form for straight-line re-assignments, so the
+        # expanded return is the whole expression
+        ok = rets == [f'Space({gor}.space_type, np.tile({gor}.lower_bound, {hw}), '
+                      f'np.tile({gor}.upper_bound, {hw}))']
         rep.check(ok, rule_shape, rel, f'{c.name}.space', sp.node.lineno, '; '.join(rets)[:160],
                   f'{c.name}.space does not tile the per-object bounds by (height, width, 1) of '
                   f'the space\'s grid shape', f'{c.name}.space tiled (h, w, 1)')
@@ -366,15 +368,20 @@ def agent_vector(index: RepoIndex, rep, rule: str, rule_dtype: str) -> None:
     p = cv.node.args.args[1].arg
     w = walk_function(cv.node)
     rets = [e for e in w.events if e.kind == 'return' and e.value is not None]
-    arr = src(rets[0].value) if len(rets) == 1 else ''
-    d = w.sole_binding(arr) if arr.isidentifier() else None
-    rep.check(d is not None and src(d[1]) == 'np.zeros(6)', rule_dtype, STATE,
-              'AgentStateRepresentation.convert', cv.node.lineno, src(d[1]) if d else '',
+    try:
+        cells, is_float = vector_of(w, rets[0].value) if len(rets) == 1 else (None, False)
+    except AnalysisError as ex:
+        cells, is_float = None, False
+        rep.note(f'agent vector: {ex}')
+    rep.check(cells is not None and len(cells) == 6 and is_float, rule_dtype, STATE,
+              'AgentStateRepresentation.convert', cv.node.lineno,
+              src(rets[0].value) if rets else '',
               'the agent vector is not a float array of length 6', 'agent vector float[6]')
-    stores = {src(e.target.slice): w.expand(e.value) for e in w.events
-              if e.kind == 'store' and src(e.target.value) == arr}
-    for idx, coord, dim in (('0', 'y', 'height'), ('1', 'x', 'width')):
-        v = stores.get(idx)
+    if cells is None or len(cells) != 6:
+        return
+    for idx, coord, dim in ((0, 'y', 'height'), (1, 'x', 'width')):
+        v = cells[idx] if cells[idx][0] == 'expr' else None
+        v = v[1] if v else None
         ok = False
         detail = src(v) if v is not None else ''
         if isinstance(v, ast.BinOp) and isinstance(v.op, ast.Div):
@@ -399,22 +406,83 @@ def agent_vector(index: RepoIndex, rep, rule: str, rule_dtype: str) -> None:
         rep.check(ok, rule, STATE, 'AgentStateRepresentation.convert', cv.node.lineno, detail,
                   f'the normalised {coord} coordinate `{detail}` does not range over [-1, 1] for '
                   f'0 <= {coord} <= {dim}-1', f'agent {coord} in [-1, 1]')
-    oh = [k for k in stores if k not in ('0', '1')]
     ori = index.enum('Orientation')
-    ok = len(oh) == 1 and src(stores[oh[0]]) == '1'
-    if ok:
-        e = ast.parse(oh[0], mode='eval').body
-        i_def = None
-        if isinstance(e, ast.BinOp) and isinstance(e.op, ast.Add):
-            parts = [src(w.expand(e.left)), src(w.expand(e.right))]
-            ok = sorted(parts) == sorted(['2', f'{p}.agent.orientation.value'])
-        else:
-            ok = False
+    hot = cells[2:]
+    ok = all(h[0] == 'hot' for h in hot) and len({(h[1], h[2], h[4]) for h in hot}) == 1 and \
+        [h[3] for h in hot] == [0, 1, 2, 3] and hot[0][1] == f'{p}.agent.orientation.value' \
+        and hot[0][2] == '1' and hot[0][4] == 4
     vals = sorted(ori.members.values())
     rep.check(ok and vals == [0, 1, 2, 3], rule, STATE, 'AgentStateRepresentation.convert',
-              cv.node.lineno, '; '.join(oh),
+              cv.node.lineno, '; '.join(str(h[:4]) for h in hot),
               'the heading is not one-hot encoded at index 2 + orientation.value with values '
               '0..3 (index at most 5)', 'one-hot heading within the vector')
+
+
+def vector_of(w, e: ast.AST, depth: int = 4):
+    """cells of a small vector-valued expression: ('expr', node) | ('zero',) |
+    ('hot', index text, value text, position in the block, block width), and whether the
+    array is float-typed.  Understood: np.zeros(n) filled by element stores (constant index,
+    or constant + index expression: a one-hot block reaching the end of the array), list /
+    tuple / np.array displays, np.concatenate / np.hstack of such parts"""
+    if depth <= 0:
+        raise AnalysisError('vector expression too deep')
+    if isinstance(e, ast.Name):
+        d = w.sole_binding(e.id)
+        if d is None or d[0] != 'value':
+            raise AnalysisError(f'vector `{e.id}` has no single definition')
+        v = d[1]
+        if isinstance(v, ast.Call) and src(v.func) in ('np.zeros', 'numpy.zeros') and \
+                len(v.args) == 1 and isinstance(v.args[0], ast.Constant) and \
+                isinstance(v.args[0].value, int):
+            n = v.args[0].value
+            isf = not v.keywords or all(
+                k.arg == 'dtype' and src(k.value) in ('float', 'np.float64', 'np.float32')
+                for k in v.keywords)
+            cells = [('zero',)] * n
+            for ev in w.events:
+                if ev.kind == 'store' and isinstance(ev.target, ast.Subscript) and \
+                        src(ev.target.value) == e.id:
+                    idx = w.expand(ev.target.slice)
+                    if isinstance(idx, ast.Constant) and isinstance(idx.value, int) and \
+                            0 <= idx.value < n:
+                        cells[idx.value] = ('expr', w.expand(ev.value))
+                        continue
+                    base, var = 0, idx
+                    if isinstance(idx, ast.BinOp) and isinstance(idx.op, ast.Add):
+                        for a, b in ((idx.left, idx.right), (idx.right, idx.left)):
+                            if isinstance(a, ast.Constant) and isinstance(a.value, int):
+                                base, var = a.value, b
+                    if not 0 <= base < n:
+                        raise AnalysisError(f'store `{src(ev.stmt)}` outside the vector')
+                    for k in range(base, n):
+                        cells[k] = ('hot', src(var), src(w.expand(ev.value)), k - base, n - base)
+                elif ev.kind in ('augstore', 'attrstore') and src(ev.target).startswith(e.id):
+                    raise AnalysisError(f'vector `{e.id}` is updated by `{src(ev.stmt)}`')
+            return cells, isf
+        return vector_of(w, v, depth - 1)
+    if isinstance(e, (ast.List, ast.Tuple)):
+        cells = [('expr', w.expand(x)) for x in e.elts]
+        isf = all(isinstance(c[1], ast.BinOp) and isinstance(c[1].op, ast.Div) or
+                  (isinstance(c[1], ast.Constant) and isinstance(c[1].value, float))
+                  for c in cells)
+        return cells, isf
+    if isinstance(e, ast.Call) and src(e.func) in ('np.array', 'numpy.array', 'np.asarray') and \
+            e.args:
+        cells, isf = vector_of(w, e.args[0], depth - 1)
+        kw = {k.arg: src(k.value) for k in e.keywords}
+        if 'dtype' in kw:
+            isf = kw['dtype'] in ('float', 'np.float64', 'np.float32')
+        return cells, isf
+    if isinstance(e, ast.Call) and src(e.func) in ('np.concatenate', 'np.hstack',
+                                                   'numpy.concatenate') and len(e.args) == 1 \
+            and isinstance(e.args[0], (ast.Tuple, ast.List)) and not e.keywords:
+        cells, isf = [], False
+        for part in e.args[0].elts:
+            c, f_ = vector_of(w, part, depth - 1)
+            cells += c
+            isf = isf or f_       # numpy promotes to float when any part is float
+        return cells, isf
+    raise AnalysisError(f'vector expression outside the grammar: `{src(e)[:60]}`')
 
 
 def run(index: RepoIndex, rep) -> None:
